@@ -285,6 +285,15 @@ def Ins.transform (sqrt : Rat → Rat) (old new : Ocs) (m : M44) (i : Ins) (tol 
     let o : OcsT := ⟨m, old, new, true⟩
     .ok ⟨o.vertex i.insert, xs, ys, zs, dir2 o i.rot⟩
 
+/-- MINSERT: `Insert.transform` scales (and mirrors) the grid spacing like the axis it is measured along:
+    column_spacing *= xscale' / xscale (if xscale ≠ 0), row_spacing *= yscale' / yscale (if yscale ≠ 0) -/
+def minsertSpacing (i i' : Ins) (colSpacing rowSpacing : Rat) : Rat × Rat :=
+  (if i.sx = 0 then colSpacing else colSpacing * (i'.sx / i.sx), if i.sy = 0 then rowSpacing else rowSpacing * (i'.sy / i.sy))
+
+/-- direction of the x- and y-axis of a block reference (and of the columns / rows of a MINSERT grid) in WCS -/
+def Ins.xAxis (o : Ocs) (i : Ins) : V3 := V3.add (V3.smul i.rot.x o.ux) (V3.smul i.rot.y o.uy)
+def Ins.yAxis (o : Ocs) (i : Ins) : V3 := V3.add (V3.smul (-i.rot.y) o.ux) (V3.smul i.rot.x o.uy)
+
 /-! ## Nested block references (explode.py: virtual_block_reference_entities, any depth) -/
 
 /-- block content: WCS points (standing for every entity that obeys the linear law) and references to other blocks;
@@ -313,6 +322,380 @@ def Node.flatList (acc : M44) : List Node → List V3
   | [] => []
   | n :: ns => Node.flat acc n ++ Node.flatList acc ns
 end
+
+/-! ## HATCH / MPOLYGON boundary paths (entities/polygon.py, entities/boundary_paths.py) -/
+
+/-- vertex of a polyline path: (x, y, bulge) in the OCS plane of the HATCH -/
+structure PVertex where
+  x : Rat
+  y : Rat
+  bulge : Rat
+deriving DecidableEq, Repr
+
+/-- boundary edges; angles are unit direction vectors; an ellipse edge is modelled by its centre only (its axes are the subject
+    of the `rytz` theorems) -/
+inductive HEdge where
+  | line (s e : V2)
+  | arc (center : V2) (radius : Rat) (s e : V2) (full ccw : Bool)
+  | spline (cps fits : List V2) (startTan endTan : Option V2)
+  | ellipse (center : V2)
+deriving DecidableEq, Repr
+
+inductive BPath where
+  | poly (vs : List PVertex) (closed : Bool)
+  | edges (es : List HEdge)
+deriving DecidableEq, Repr
+
+structure Hatch where
+  paths : List BPath
+  elevation : Rat          -- z of `dxf.elevation`
+deriving DecidableEq, Repr
+
+def PVertex.hasBulge (v : PVertex) : Bool := v.bulge != 0
+def HEdge.isArc : HEdge → Bool
+  | .arc .. => true
+  | _ => false
+
+/-- a path that `BoundaryPaths.transform` has to convert (polyline path with bulges → edge path, arc edges → ellipse edges)
+    before a non-uniform scaling; the conversion is outside the model -/
+def BPath.needsConversion : BPath → Bool
+  | .poly vs _ => vs.any PVertex.hasBulge
+  | .edges es => es.any HEdge.isArc
+
+/-- `LineEdge / ArcEdge / SplineEdge / EllipseEdge.transform(ocs, elevation)`; the elevation each statement uses is taken from
+    the regenerated flow table (`Gen.TransformKernels.hatch…`), line edges from the py2lean translation of `LineEdge.transform` -/
+def HEdge.transform (sqrt : Rat → Rat) (o : OcsT) (elev : Rat) : HEdge → HEdge
+  | .line s e =>
+    let r := TransformKernels.hatchLineEdge s e o.m o.old.t o.old.m o.new.t o.new.m elev
+    .line r.1 r.2
+  | .arc c r s e full ccw =>
+    -- open arc: both angles are transformed; full circle: the end is the transformed start + 360°
+    .arc (o.vertex2d c (TransformKernels.hatchArcCenterElev elev)) (o.length sqrt ⟨r, 0, 0⟩) (dir2 o s)
+      (if full then dir2 o s else dir2 o e) full ccw
+  | .spline cps fits st et =>
+    .spline (cps.map fun v => o.vertex2d v (TransformKernels.hatchSplinePointElev elev))
+      (fits.map fun v => o.vertex2d v (TransformKernels.hatchSplinePointElev elev))
+      (st.map fun t => let d := o.direction ⟨t.x, t.y, TransformKernels.hatchSplineTangentZ elev⟩; (⟨d.x, d.y⟩ : V2))
+      (et.map fun t => let d := o.direction ⟨t.x, t.y, TransformKernels.hatchSplineTangentZ elev⟩; (⟨d.x, d.y⟩ : V2))
+  | .ellipse c =>
+    let v := o.vertex ⟨c.x, c.y, TransformKernels.hatchEllipseCenterElev elev⟩
+    .ellipse ⟨v.x, v.y⟩
+
+/-- `PolylinePath.transform` / `EdgePath.transform` -/
+def BPath.transform (sqrt : Rat → Rat) (o : OcsT) (elev : Rat) : BPath → BPath
+  | .poly vs closed =>
+    .poly (vs.map fun v => let q := o.vertex ⟨v.x, v.y, TransformKernels.hatchPolyVertexZ elev⟩; ⟨q.x, q.y, v.bulge⟩) closed
+  | .edges es => .edges (es.map (HEdge.transform sqrt o (TransformKernels.hatchEdgePathElev elev)))
+
+/-- `DXFPolygon.transform`: paths at the OLD elevation, then the new elevation = z of the transformed point (0, 0, elevation).
+    `none`: a path needs the arc → ellipse conversion first (non-uniform scaling of the OCS plane), which is not modelled. -/
+def Hatch.transform (sqrt : Rat → Rat) (o : OcsT) (h : Hatch) : Option Hatch :=
+  if !o.uniform && h.paths.any BPath.needsConversion then none
+  else some ⟨h.paths.map (BPath.transform sqrt o (TransformKernels.hatchPathElev (TransformKernels.hatchPathsElev h.elevation))),
+             (o.vertex ⟨0, 0, TransformKernels.hatchNewElevationZ h.elevation⟩).z⟩
+
+/-- the 2-D boundary points a path stores (polyline vertices; line end points; arc / ellipse centres; spline control and fit
+    points), in storage order -/
+def HEdge.points : HEdge → List V2
+  | .line s e => [s, e]
+  | .arc c _ _ _ _ _ => [c]
+  | .spline cps fits _ _ => cps ++ fits
+  | .ellipse c => [c]
+def BPath.points : BPath → List V2
+  | .poly vs _ => vs.map fun v => ⟨v.x, v.y⟩
+  | .edges es => es.flatMap HEdge.points
+def Hatch.points (h : Hatch) : List V2 := h.paths.flatMap BPath.points
+
+/-- tangent directions of the spline edges of a path -/
+def HEdge.tangents : HEdge → List V2
+  | .spline _ _ st et => st.toList ++ et.toList
+  | _ => []
+def BPath.tangents : BPath → List V2
+  | .poly _ _ => []
+  | .edges es => es.flatMap HEdge.tangents
+def Hatch.tangents (h : Hatch) : List V2 := h.paths.flatMap BPath.tangents
+
+/-- bulge values of the polyline paths -/
+def BPath.bulges : BPath → List Rat
+  | .poly vs _ => vs.map fun v => v.bulge
+  | .edges _ => []
+def Hatch.bulges (h : Hatch) : List Rat := h.paths.flatMap BPath.bulges
+
+/-- WCS position of a 2-D boundary point of a HATCH with the given elevation -/
+def hatchPoint (o : Ocs) (elev : Rat) (v : V2) : V3 := o.toWcs ⟨v.x, v.y, elev⟩
+
+/-! ## TEXT / ATTRIB / ATTDEF (entities/text.py) and MTEXT (entities/mtext.py) -/
+
+/-- TEXT: angles are unit direction vectors: `rot` = (cos, sin) of the rotation, `obl` = (cos, sin) of the oblique angle -/
+structure Txt where
+  insert : V3            -- OCS
+  align : Option V3      -- OCS; `none` = attribute absent (the code stores `insert` then)
+  rot : V2
+  obl : V2
+  height : Rat
+  width : Rat            -- relative x-scale factor (default 1)
+  thickness : Option Rat
+deriving DecidableEq, Repr
+
+/-- direction turned by +90° -/
+def rot90 (d : V2) : V2 := ⟨-d.y, d.x⟩
+
+/-- `Text.transform`: insert / align point by `transform_vertex`; rotation by `transform_deg_angle` (kept as the un-normalised
+    transformed direction); x / y scale = lengths of the transformed baseline and up direction; for a NON-uniform OCS
+    transformation the oblique vector (direction of rotation + 90° − oblique) is transformed, the new oblique angle ω' is the
+    angle from the transformed oblique vector to the normal of the new baseline: cos ω' = (d' × ob') / (|d'||ob'|),
+    sin ω' = (d' · ob') / (|d'||ob'|) (no trigonometry needed); the y scale is multiplied by the cosine of the angle between the
+    transformed up vector u' and that normal, (d' × u') / (|d'||u'|).
+    ZeroDivisionError: x_scale / y_scale with y_scale = 0. -/
+def Txt.transform (sqrt : Rat → Rat) (o : OcsT) (t : Txt) : Except TErr Txt :=
+  let d := t.rot
+  let u := rot90 d
+  let ins := o.vertex t.insert
+  let al := o.vertex (t.align.getD t.insert)
+  let d' := dir2 o d
+  let xs := o.length sqrt ⟨d.x, d.y, 0⟩
+  let ys := o.length sqrt ⟨u.x, u.y, 0⟩
+  if o.uniform then
+    if ys = 0 then .error .zeroDivision
+    else .ok ⟨ins, some al, d', t.obl, t.height * ys, t.width * (xs / ys), t.thickness.map o.thickness⟩
+  else
+    let ob : V2 := ⟨u.x * t.obl.x + d.x * t.obl.y, u.y * t.obl.x + d.y * t.obl.y⟩
+    let ob' := dir2 o ob
+    let u' := dir2 o u
+    let rd := sqrt (dot2 d' d')
+    let ro := sqrt (dot2 ob' ob')
+    let ru := sqrt (dot2 u' u')
+    if rd * ro = 0 then .error .zeroDivision
+    else if rd * ru = 0 then .error .zeroDivision
+    else
+      let co := cross2 d' ob' / (rd * ro)
+      let si := dot2 d' ob' / (rd * ro)
+      -- the height is measured perpendicular to the baseline: cosine of the angle between the transformed up vector and
+      -- the normal of the new baseline (fix b560c7405; it was the cosine of the new oblique angle)
+      let ys' := ys * (cross2 d' u' / (rd * ru))
+      if ys' = 0 then .error .zeroDivision
+      else .ok ⟨ins, some al, d', ⟨co, si⟩, t.height * ys', t.width * (xs / ys'), t.thickness.map o.thickness⟩
+
+/-- MTEXT is a WCS entity: insert, text direction (any length), unit extrusion, character height, optional width -/
+structure MTxt where
+  insert : V3
+  dir : V3
+  ext : V3
+  charHeight : Rat
+  width : Option Rat
+deriving DecidableEq, Repr
+
+/-- `angle_between` clamps the cosine to [-1, 1] before `acos` -/
+def clamp1 (c : Rat) : Rat := if c < -1 then -1 else if 1 < c then 1 else c
+
+/-- image of the character-height vector: `m.transform_direction((extrusion × direction).normalize(char_height))` -/
+def MTxt.heightVec (sqrt : Rat → Rat) (m : M44) (t : MTxt) : V3 :=
+  let v := V3.cross t.ext t.dir
+  applyDir m (V3.smul (t.charHeight / sqrt (magSq v)) v)
+
+/-- `MText.transform` (without columns): insert and direction are mapped by `m`; the new character height is
+    |H'|·sin θ for the image H' of the height vector and the angle θ between the new direction T' and H'
+    (`angle_between` = acos of the clamped cosine, sin ≥ 0: sin θ = √(1 − cos²θ)); the new extrusion comes from
+    `transform_extrusion` for the OCS `old` of the old extrusion; the width is the length of the image of direction·width -/
+def MTxt.transform (sqrt : Rat → Rat) (old : Ocs) (m : M44) (t : MTxt) : Except TErr MTxt :=
+  match transformExtrusion sqrt old m with
+  | .error _ => .error .zeroDivision
+  | .ok (n, _) =>
+    let T' := applyDir m t.dir
+    let rv := sqrt (magSq (V3.cross t.ext t.dir))
+    if rv = 0 then .error .zeroDivision else
+    let H' := t.heightVec sqrt m
+    let rT := sqrt (magSq T')
+    let rH := sqrt (magSq H')
+    if rT = 0 ∨ rH = 0 then .error .zeroDivision else
+    let c := clamp1 (V3.dot (V3.smul (1 / rT) T') (V3.smul (1 / rH) H'))
+    let h' := rH * sqrt (1 - c * c)
+    let rD := sqrt (magSq t.dir)
+    match t.width with
+    | none => .ok ⟨apply m t.insert, T', n, h', none⟩
+    | some w =>
+      if rD = 0 then .error .zeroDivision
+      else .ok ⟨apply m t.insert, T', n, h', some (sqrt (magSq (applyDir m (V3.smul (w / rD) t.dir))))⟩
+
+/-! ## MLINE (entities/mline.py) -/
+
+/-- `MLine.transform`: the reference vertices are WCS points mapped by `m` (the element lines are regenerated from them, the
+    extrusion and the scale factor by `update_geometry`); the new scale factor is the regenerated kernel `mlineScale` -/
+structure MLine where
+  locations : List V3
+  scale : Rat
+deriving DecidableEq, Repr
+
+def MLine.transform (sqrt : Rat → Rat) (m : M44) (l : MLine) : MLine :=
+  ⟨transformPoints m l.locations, TransformKernels.mlineScaleS sqrt l.scale m⟩
+
+/-! ## DIMENSION (entities/dimension.py) -/
+
+/-- value of a DIMENSION attribute: a point (OCS or WCS, depending on the attribute) or an angle as unit direction -/
+inductive DimVal where
+  | pt (p : V3)
+  | ang (d : V2)
+deriving DecidableEq, Repr
+
+/-- `Dimension.transform` on the attributes that exist: the three name tables are regenerated from the source; attributes in
+    none of the tables are left alone -/
+def dimAttr (o : OcsT) (name : String) (v : DimVal) : DimVal :=
+  match v with
+  | .pt p =>
+    if name ∈ TransformKernels.dimOcsVertexNames then .pt (o.vertex p)
+    else if name ∈ TransformKernels.dimWcsVertexNames then .pt (apply o.m p)
+    else .pt p
+  | .ang d => if name ∈ TransformKernels.dimAngleNames then .ang (dir2 o d) else .ang d
+
+def Dim.transform (o : OcsT) (attrs : List (String × DimVal)) : List (String × DimVal) :=
+  attrs.map fun nv => (nv.1, dimAttr o nv.1 nv.2)
+
+/-! ## 2-D POLYLINE (entities/polyline.py) -/
+
+structure PlVertex where
+  loc : V3               -- OCS location incl. its own z
+  bulge : Rat
+  startWidth : Option Rat
+  endWidth : Option Rat
+deriving DecidableEq, Repr
+
+structure Polyline2d where
+  vertices : List PlVertex
+  elevation : Option Rat      -- z of dxf.elevation when the attribute exists
+  thickness : Option Rat
+deriving DecidableEq, Repr
+
+/-- the OCS location that is transformed: an existing polyline elevation replaces the z of every vertex -/
+def PlVertex.ocsLocation (elev : Option Rat) (v : PlVertex) : V3 :=
+  match elev with
+  | some z => ⟨v.loc.x, v.loc.y, z⟩
+  | none => v.loc
+
+/-- `Polyline.transform` for a 2-D polyline: NonUniformScalingError for arcs under a non-uniform OCS transformation; every
+    location by `transform_vertex`; the new elevation is the z of the first new location (always stored when there are
+    vertices); widths by `transform_width`, thickness by `transform_thickness`; bulges untouched -/
+def Polyline2d.transform (sqrt : Rat → Rat) (o : OcsT) (p : Polyline2d) : Except TErr Polyline2d :=
+  if !o.uniform && p.vertices.any (fun v => v.bulge != 0) then .error .nonUniformScaling
+  else
+    let vs := p.vertices.map fun v =>
+      ({ v with loc := o.vertex (v.ocsLocation p.elevation), startWidth := v.startWidth.map (o.width sqrt),
+                endWidth := v.endWidth.map (o.width sqrt) } : PlVertex)
+    let elev := match vs with
+      | v :: _ => some v.loc.z
+      | [] => p.elevation
+    .ok ⟨vs, elev, p.thickness.map o.thickness⟩
+
+/-! ## WCS entities with named attributes: IMAGE/WIPEOUT, LEADER, HELIX, TOLERANCE, LIGHT, XLINE/RAY, MLINE vertices -/
+
+/-- value of a WCS attribute -/
+inductive WVal where
+  | pt (p : V3)
+  | vec (v : V3)
+  | pts (l : List V3)
+  | len (r : Rat)
+deriving DecidableEq, Repr
+
+/-- what a `transform(self, m)` statement of kind `kind` (regenerated table `wcsAttrTable`) does with the attribute value;
+    `normal` attributes go through `transform_extrusion` (see `extrusion_law`) and are not modelled here -/
+def wcsAttr (sqrt : Rat → Rat) (m : M44) (kind : String) (v : WVal) : WVal :=
+  match kind, v with
+  | "point", .pt p => .pt (apply m p)
+  | "vector", .vec d => .vec (applyDir m d)
+  | "unit", .vec d => let r := sqrt (magSq (applyDir m d)); .vec (V3.smul (1 / r) (applyDir m d))
+  | "points", .pts l => .pts (transformPoints m l)
+  | "xlength", .len r => .len (sqrt (magSq (applyDir m ⟨r, 0, 0⟩)))
+  | _, w => w
+
+/-! ## ELLIPSE / ellipse edges / arc → ellipse fallback: `ConstructionEllipse.transform` (math/ellipse.py), axes part -/
+
+/-- `Vec3.normalize()`: v * (1 / |v|) with the root supplied -/
+def nrmV (r : Rat) (v : V3) : V3 := ⟨v.x * (1 / r), v.y * (1 / r), v.z * (1 / r)⟩
+
+/-- the double nearest to 1e-6 -/
+def tol6 : Rat := 4722366482869645 / 4722366482869645213696
+
+structure Ell where
+  center : V3
+  major : V3
+  ext : V3
+  ratio : Rat
+deriving DecidableEq, Repr
+
+structure EllOut where
+  center : V3
+  major : V3
+  minor : V3
+  ext : V3
+  ratio : Rat
+deriving DecidableEq, Repr
+
+def liftPy {α} (e : Except PyErr α) : Except PyErr α := e
+
+/-- `ConstructionEllipse.transform(m)` without the start / end parameters (a full ellipse): centre by `m`; the conjugate
+    half-diameters (major, minor_axis(major, extrusion, ratio)) by the linear part; if their images are not orthogonal
+    (|cos| > 1e-6) principal axes by `rytz_axis_construction` (regenerated), else the image of the major axis is kept and the minor
+    axis is rebuilt perpendicular to it; finally axes with ratio > 1 are exchanged -/
+def Ell.transform (sqrt : Rat → Rat) (m : M44) (e : Ell) : Except PyErr EllOut :=
+  match TransformKernels.minorAxisS sqrt e.major e.ext e.ratio with
+  | .error x => .error x
+  | .ok mn =>
+    let mj' := applyDir m e.major
+    let mn' := applyDir m mn
+    let ra := sqrt (magSq mj')
+    let rb := sqrt (magSq mn')
+    if ra = 0 ∨ rb = 0 then .error .zeroDivision else
+    let core : Except PyErr (V3 × V3 × Rat × V3) :=
+      if tol6 < pyAbs (V3.dot (nrmV ra mj') (nrmV rb mn')) then
+        match TransformKernels.rytzS sqrt mj' mn' with
+        | .error x => .error x
+        | .ok (a, b, r) =>
+          let rn := sqrt (magSq (V3.cross a b))
+          if rn = 0 then .error .zeroDivision else .ok (a, b, r, nrmV rn (V3.cross a b))
+      else
+        let rn := sqrt (magSq (V3.cross mj' mn'))
+        if rn = 0 then .error .zeroDivision else
+        match TransformKernels.minorAxisS sqrt mj' (nrmV rn (V3.cross mj' mn')) (rb / ra) with
+        | .error x => .error x
+        | .ok b => .ok (mj', b, rb / ra, nrmV rn (V3.cross mj' mn'))
+    match core with
+    | .error x => .error x
+    | .ok (a, b, r, n) =>
+      if 1 < r then
+        match TransformKernels.minorAxisS sqrt a n r with
+        | .error x => .error x
+        | .ok a2 =>
+          match TransformKernels.minorAxisS sqrt a2 n (1 / r) with
+          | .error x => .error x
+          | .ok b2 => .ok ⟨apply m e.center, a2, b2, n, 1 / r⟩
+      else .ok ⟨apply m e.center, a, b, n, r⟩
+
+/-- `EllipseEdge.transform(ocs, elevation)`, axes part: the edge becomes a `ConstructionEllipse` in WCS (centre lifted with the
+    elevation, major axis as a direction, extrusion of the old OCS), is transformed by `m` (`Ell.transform`) and brought back into
+    the new OCS (x, y of centre and major axis, ratio).  Arc edges take the same way after `arc_edges_to_ellipse_edges`
+    (major axis (radius, 0), ratio 1) when the scaling of the OCS plane is not uniform. -/
+def ellipseEdgeAxes (sqrt : Rat → Rat) (o : OcsT) (elev : Rat) (center major : V2) (ratio : Rat) : Except PyErr (V2 × V2 × Rat) :=
+  match Ell.transform sqrt o.m ⟨o.old.toWcs ⟨center.x, center.y, TransformKernels.hatchEllipseCenterElev elev⟩,
+      o.old.toWcs ⟨major.x, major.y, 0⟩, o.old.uz, ratio⟩ with
+  | .error x => .error x
+  | .ok out =>
+    let c := o.new.fromWcs out.center
+    let mj := o.new.fromWcs out.major
+    .ok (⟨c.x, c.y⟩, ⟨mj.x, mj.y⟩, out.ratio)
+
+/-! ## ACIS entities (BODY, 3DSOLID, REGION, SURFACE ...): `Body.transform` accumulates a temporary transformation -/
+
+/-- `TemporaryTransformation.add_matrix` on the state `_matrix` (`none` = no pending transformation); both branches are
+    regenerated from entities/temporary_transform.py (the operand order of the matrix product is the code's) -/
+def tempAdd (stored : Option M44) (m : M44) : Option M44 :=
+  match stored with
+  | none => some (TransformKernels.tempAddNone m)
+  | some a => some (TransformKernels.tempAddSome a m)
+
+/-- a history `e.transform(m1); e.transform(m2); ...` on one ACIS entity -/
+def tempRun (stored : Option M44) (ms : List M44) : Option M44 := ms.foldl tempAdd stored
+
+/-- the same history applied to a WCS point (what every other entity does with its geometry) -/
+def applySeq (ms : List M44) (p : V3) : V3 := ms.foldl (fun q m => apply m q) p
 
 /-! ## upright(): flip an OCS with extrusion (0, 0, -1) to +Z -/
 
